@@ -37,6 +37,7 @@ type Obj struct {
 	// chan
 	Queue []Value
 	Cap   int
+	Closed bool
 	Type  types.Type
 	// Shared: storage of a global of a package whose code is not executed. It is never written
 	// (a write is reported as unsupported), so all states share it instead of copying it.
@@ -94,7 +95,7 @@ func (c *cloner) obj(o *Obj) *Obj {
 		c.memo[o] = o
 		return o
 	}
-	n := &Obj{ID: o.ID, Kind: o.Kind, Cap: o.Cap, Type: o.Type}
+	n := &Obj{ID: o.ID, Kind: o.Kind, Cap: o.Cap, Type: o.Type, Closed: o.Closed}
 	c.memo[o] = n
 	n.Val = c.val(o.Val)
 	if o.Entries != nil {
